@@ -37,6 +37,7 @@ type Verdict struct {
 	Features  []string `json:"features,omitempty"`
 	NonTriv   bool     `json:"nontrivial"`
 	Tie       bool     `json:"tie,omitempty"`
+	Libm      bool     `json:"libm,omitempty"` // both engines agree; the model's C math library rounds differently
 	EngKind   string   `json:"eng_kind,omitempty"`
 	Steps     int      `json:"steps"`
 	NumSeries int      `json:"nseries"`
@@ -92,6 +93,10 @@ func diffCase(c *Case, lean *LeanDriver) Verdict {
 		v.Skipped = "parse: " + err.Error()
 		return v
 	}
+	if atInAggParam(plan) {
+		v.Skipped = "at-modifier-in-aggregation-parameter"
+		return v
+	}
 	if c.Procs > 0 {
 		runtime.GOMAXPROCS(c.Procs)
 	}
@@ -141,7 +146,27 @@ func diffCase(c *Case, lean *LeanDriver) Verdict {
 	v.PromVsSpec = Diff(prom, spec)
 	v.EngVsModel = Diff(eng, model)
 	v.ModelVsSpec = Diff(model, spec)
+	if v.EngVsProm == "" && v.ModelVsSpec == "" && v.PromVsSpec != "" && v.PromVsSpec == v.EngVsModel && usesLibm(c.Query) {
+		// The two engines (Go's math package) agree with each other and the two models (the C
+		// library behind Lean's Float) agree with each other: a transcendental function rounded
+		// differently and something downstream (%, floor, a comparison) amplified the last bit.
+		// Those functions are uninterpreted in the proofs; their values are outside the tie.
+		v.Libm = true
+		v.PromVsSpec, v.EngVsModel = "", ""
+	}
 	return v
+}
+
+var libmFns = []string{"exp(", "ln(", "log2(", "log10(", "sin(", "cos(", "tan(", "asin(", "acos(", "atan(", "sinh(", "cosh(",
+	"tanh(", "asinh(", "acosh(", "atanh(", " ^ ", " atan2 "}
+
+func usesLibm(q string) bool {
+	for _, f := range libmFns {
+		if strings.Contains(q, f) {
+			return true
+		}
+	}
+	return false
 }
 
 // ---------------------------------------------------------------------------------------------
@@ -165,6 +190,7 @@ func runWorker(oracle string) {
 				os.Exit(3)
 			}
 			var v Verdict
+			setOverflow(&c)
 			switch oracle {
 			case "diff":
 				v = diffCase(&c, lean)
